@@ -1,8 +1,13 @@
+use std::fmt;
 use std::mem;
+use std::sync::Arc;
 
 use crate::error::{Error, ErrorKind};
 use crate::value::merge_object::MergeSeq;
-use crate::value::{DynObject, ObjectRepr, Tuple, Value, ValueKind, ValueRepr};
+use crate::value::{
+    mapped_enumerator, DynObject, Enumerator, Object, ObjectRepr, Tuple, Value, ValueKind,
+    ValueRepr,
+};
 
 const MIN_I128_AS_POS_U128: u128 = 170141183460469231731687303715884105728;
 pub(crate) const MAX_REPEATED_STRING_LEN: usize = 100_000_000;
@@ -498,27 +503,66 @@ fn repeat_iterable(n: &Value, seq: &DynObject) -> Result<Value, Error> {
         return Ok(Value::from(Tuple::from(values)));
     }
 
+    // A repetition of a repetition repeats the innermost operand more often
+    // instead of wrapping the operand once more.  Repetitions therefore never
+    // nest, no matter how often a template multiplies a value with a number
+    // (`x = x * 1` in a loop would otherwise build a chain of wrappers as long
+    // as the loop, which is walked recursively when iterated or dropped).
+    let (seq, len, n) = match seq.downcast_ref::<Repeated>() {
+        Some(inner) => (
+            inner.seq.clone(),
+            inner.len,
+            if total == 0 { 0 } else { inner.n * n },
+        ),
+        None => (seq.clone(), len, n),
+    };
+
+    Ok(Value::from_object(Repeated { seq, len, n, total }))
+}
+
+/// A sized iterable that yields the items of `seq` (which has `len` items)
+/// `n` times, `total` items altogether.
+struct Repeated {
+    seq: DynObject,
+    len: usize,
+    n: usize,
+    total: usize,
+}
+
+impl fmt::Debug for Repeated {
+    fn fmt(&self, f: &mut fmt::Formatter<'_>) -> fmt::Result {
+        f.debug_struct("<iterator>").finish()
+    }
+}
+
+impl Object for Repeated {
+    fn repr(self: &Arc<Self>) -> ObjectRepr {
+        ObjectRepr::Iterable
+    }
+
     // This is not optimal.  We only query the enumerator for the length once
     // but we support repeated iteration.  We could both lie about our length
     // here and we could actually deal with an object that changes how much
     // data it returns.  This is not really permissible so we won't try to
     // improve on this here.
-    Ok(Value::make_object_iterable(seq.clone(), move |seq| {
-        Box::new(LenIterWrap(
-            total,
-            (0..n).flat_map(move |_| {
-                seq.try_iter().unwrap_or_else(|| {
-                    Box::new(
-                        std::iter::repeat(Value::from(Error::new(
-                            ErrorKind::InvalidOperation,
-                            "iterable did not iterate against expectations",
-                        )))
-                        .take(len),
-                    )
-                })
-            }),
-        ))
-    }))
+    fn enumerate(self: &Arc<Self>) -> Enumerator {
+        mapped_enumerator(self, |this| {
+            Box::new(LenIterWrap(
+                this.total,
+                (0..this.n).flat_map(move |_| {
+                    this.seq.try_iter().unwrap_or_else(|| {
+                        Box::new(
+                            std::iter::repeat(Value::from(Error::new(
+                                ErrorKind::InvalidOperation,
+                                "iterable did not iterate against expectations",
+                            )))
+                            .take(this.len),
+                        )
+                    })
+                }),
+            ))
+        })
+    }
 }
 
 pub fn div(lhs: &Value, rhs: &Value) -> Result<Value, Error> {
